@@ -339,6 +339,16 @@ func runC09(col *Collector, tier string, seed int64) {
 					e.twoVar = false
 					envs = append(envs, e)
 				}
+				// the same case with values full of characters that mean something to a shell, to YAML or to a glob
+				if (mask+len(order))%5 == 2 {
+					e := s
+					e.vals = make([]string, len(s.vals))
+					for i, v := range s.vals {
+						e.vals[i] = v + ` it's "q" $HOME * ~ #x ü;|&<>`
+					}
+					e.twoVar = false
+					envs = append(envs, e)
+				}
 				// the same case with values that contain "=" (an env_file line NAME=a=b keeps everything after the first "=")
 				if (mask+len(order))%4 == 1 {
 					e := s
